@@ -53,6 +53,7 @@ type c19Step struct {
 type c19Sched struct {
 	Clients []string    `json:"clients"`
 	Queries [][]c19Cond `json:"queries"`
+	Spell   []int       `json:"spell"` // per query: how the text is spelled (see c19RenderSpelled); optional
 	CmdCap  int         `json:"cmdcap"`
 	Steps   []c19Step   `json:"steps"`
 	Reps    int         `json:"reps"`
@@ -60,6 +61,7 @@ type c19Sched struct {
 }
 
 type c19EvalCase struct {
+	Spell  int       `json:"spell"`
 	Q      []c19Cond `json:"q"`
 	Events []c19KV   `json:"events"`
 }
@@ -70,19 +72,37 @@ type c19Input struct {
 }
 
 // c19Render writes the abstract conditions in the concrete syntax of query.peg
-func c19Render(conds []c19Cond) string {
+func c19Render(conds []c19Cond) string { return c19RenderSpelled(conds, 0) }
+
+// c19RenderSpelled: the same conditions in textually different but equivalent spellings
+// (query.peg allows any number of blanks around an operator and between conditions; the
+// operand inside the quotes is NEVER touched):
+//
+//	0  a.s = 'x' AND b.n > 5        1  a.s='x' AND b.n>5        2  a.s  =  'x'  AND  b.n  >  5
+func c19RenderSpelled(conds []c19Cond, spell int) string {
+	sp, and := " ", " AND "
+	switch spell {
+	case 1:
+		sp = ""
+	case 2:
+		sp, and = "  ", "  AND  "
+	}
 	parts := make([]string, 0, len(conds))
 	for _, c := range conds {
+		pre := sp
+		if pre == "" && (c.Op == "EXISTS" || c.Op == "CONTAINS") {
+			pre = " " // a word operator must be separated from the tag
+		}
 		switch {
 		case c.Op == "EXISTS":
-			parts = append(parts, c.Key+" EXISTS")
+			parts = append(parts, c.Key+pre+"EXISTS")
 		case c.Kind == "str":
-			parts = append(parts, c.Key+" "+c.Op+" '"+c.Arg+"'")
+			parts = append(parts, c.Key+pre+c.Op+sp+"'"+c.Arg+"'")
 		default:
-			parts = append(parts, c.Key+" "+c.Op+" "+c.Arg)
+			parts = append(parts, c.Key+pre+c.Op+sp+c.Arg)
 		}
 	}
-	return strings.Join(parts, " AND ")
+	return strings.Join(parts, and)
 }
 
 func c19OpName(op query.Operator) string {
@@ -352,8 +372,10 @@ func c19RunSched(t *testing.T, w *c19Writer, run int, sc c19Sched) (stuck bool) 
 	r.srv = NewServer(BufferCapacity(sc.CmdCap))
 	qstrs := []string{}
 	parsed := []interface{}{}
-	for _, conds := range sc.Queries {
-		qs := c19Render(conds)
+	spell := make([]int, len(sc.Queries))
+	copy(spell, sc.Spell)
+	for qi, conds := range sc.Queries {
+		qs := c19RenderSpelled(conds, spell[qi])
 		q, err := query.New(qs)
 		if err != nil {
 			t.Fatalf("run %d: query %q does not parse: %v", run, qs, err)
@@ -366,7 +388,7 @@ func c19RunSched(t *testing.T, w *c19Writer, run int, sc c19Sched) (stuck bool) 
 		t.Fatal(err)
 	}
 	w.emit(map[string]interface{}{"ev": "Reset", "run": run, "tag": sc.Tag, "clients": sc.Clients,
-		"queries": sc.Queries, "parsed": parsed, "qstrs": qstrs, "cmdcap": sc.CmdCap,
+		"queries": sc.Queries, "spell": spell, "parsed": parsed, "qstrs": qstrs, "cmdcap": sc.CmdCap,
 		"chancap": r.srv.BufferCapacity()})
 	ctx := context.Background()
 	emit := func(st c19Step, res string, m int, stuck, inSend bool) {
@@ -494,7 +516,7 @@ func TestVerifC19PubSub(t *testing.T) {
 	// ---------------- query evaluation cases (conformance of TMQuery!Matches)
 	we := newC19Writer(outDir + "/evals.ndjson")
 	for ci, c := range in.Evals {
-		qs := c19Render(c.Q)
+		qs := c19RenderSpelled(c.Q, c.Spell)
 		q, err := query.New(qs)
 		if err != nil {
 			t.Fatalf("eval case %d: %q does not parse: %v", ci, qs, err)
@@ -510,7 +532,7 @@ func TestVerifC19PubSub(t *testing.T) {
 		if evs == nil {
 			evs = []c19KV{}
 		}
-		we.emit(map[string]interface{}{"ev": "Eval", "q": c.Q, "qstr": qs, "parsed": c19Parsed(q), "events": evs, "res": res})
+		we.emit(map[string]interface{}{"ev": "Eval", "q": c.Q, "spell": c.Spell, "qstr": qs, "parsed": c19Parsed(q), "events": evs, "res": res})
 	}
 	we.f.Close()
 
